@@ -186,7 +186,7 @@ def main():
           f"exhaustive={not total.capped} wall={wall:.1f}s")
     if diverged and not reported:
         return 2
-    if missing:
+    if missing and not reported:
         print(f"HARNESS-ERROR: vacuous exploration, features never hit: {missing}")
         return 2
     if total.states < 1 or total.transitions < 1:
